@@ -338,6 +338,9 @@ func finish(p *propInfo, tier string, seed int, m *merged, wall time.Duration, e
 		}
 		v := vs[0]
 		rp := writeReplay(p, tier, c, v)
+		if !isReplay && os.Getenv("VERIF_NOCONFIRM") == "" {
+			confirmReplay(p, rp)
+		}
 		lines = append(lines, fmt.Sprintf("VIOLATION property=%s replay=%s", p.id, rp))
 		fmt.Fprintf(os.Stderr, "--- %s class=%q (%d cases)\n", p.id, c, m.violCounts[c])
 		for i, w := range vs {
@@ -379,6 +382,42 @@ func keys(m map[string]bool) []string {
 }
 
 func (m *merged) setSize(name string) int64 { return int64(len(m.sets[name])) }
+
+// confirmReplay re-executes the stored case in fresh processes and records in
+// the replay file whether the violation reproduces on its own (it is reported
+// either way: a failure that needs the state left by earlier cases is still a
+// failure of the code under test, but the reader should know).
+func confirmReplay(p *propInfo, path string) {
+	if strings.HasPrefix(filepath.Base(path), "none") {
+		return
+	}
+	self, err := os.Executable()
+	if err != nil {
+		return
+	}
+	reproduced := 0
+	const attempts = 2
+	for i := 0; i < attempts; i++ {
+		cmd := exec.Command(self, p.id, "--replay", path, "--evidence-dir", os.TempDir())
+		cmd.Env = append(os.Environ(), "VERIF_NOCONFIRM=1")
+		out, _ := cmd.CombinedOutput()
+		if strings.Contains(string(out), "VIOLATION property="+p.id) {
+			reproduced++
+		}
+	}
+	b, err := os.ReadFile(path)
+	if err != nil {
+		return
+	}
+	var rf map[string]any
+	if json.Unmarshal(b, &rf) != nil {
+		return
+	}
+	rf["reproduced_standalone"] = fmt.Sprintf("%d/%d fresh-process replays", reproduced, attempts)
+	nb, _ := json.MarshalIndent(rf, "", " ")
+	os.WriteFile(path, nb, 0o644)
+	fmt.Fprintf(os.Stderr, "    replay %s: reproduced in %d of %d fresh processes\n", filepath.Base(path), reproduced, attempts)
+}
 
 func writeReplay(p *propInfo, tier, class string, v Violation) string {
 	dir := filepath.Join(verifRoot, "replays")
